@@ -379,7 +379,58 @@ EXTRA = {
            "(must be refused in both roles), and a listener with its own certificate, verification not disabled and no CA path (refused, "
            "or admits nobody).",
 }
+# additions of the fifth seeding round
+EXTRA5 = {
+    "C01": " Micro scenario added: a single target that has completed everything acknowledges while the next batch - which gets exactly "
+           "the acknowledged proxy id - is being forwarded; settled oracle for a single target (the source is acknowledged at least up "
+           "to its last task).",
+    "C02": " Micro scenario added: a target shard that holds nothing reconnects at once after its stream broke (the new sender "
+           "registers while the old one is still deregistering); tasks sent after the old incarnation has ended must reach the new one. "
+           "Macro scenarios added: a target reconnecting in place while its old stream is alive, a late target with a queue of one.",
+    "C03": " The bounded-liveness half is also evaluated after stream breaks and reconnections (fault scenarios of C04, plus a break of "
+           "the target stream while the source's receive loop waits on its full hand-off queue): the closing phase - which re-opens "
+           "every stream that ended - must still end with the final watermark acknowledged.",
+    "C05": " Two more parts run the table inside real senders: (micro) a single target acknowledges while the next entry is appended, "
+           "every schedule with <=2 deviations, the source must be acknowledged up to its last task; (macro) the routing scenarios with "
+           "shared targets, watermark broadcasts and a wrapping ring, with the sender-table oracle: after every action the table of every "
+           "live target stream's sender, read through the production debug snapshot, maps each outstanding proxy id to the source shard "
+           "and original id of the task seen with that id on the wire, and every other entry to a watermark its source shard really sent.",
+    "C06": " Ending kind added: the next Send towards the source blocks until the stream's context ends (flow-control window full, "
+           "source silent) - only events that finish a stream or cancel a context may follow, as in gRPC.",
+    "C08": " Real-handler scenarios added: a source whose old pull stream does not answer the half-close reconnects (the superseded "
+           "incarnation must be ended by its successor within 6 s of virtual time), and two proxy instances with the target reconnecting "
+           "while a task for it crosses the intra-proxy stream. The scheduler has a fairness rule (a goroutine released 200 times in a "
+           "row while others wait goes to the back of the canonical order), so a retry loop that never blocks is visible: an execution "
+           "still taking steps at the horizon is reported as a livelock. Goroutines started by the code under test from goroutines the "
+           "scheduler does not manage are managed all the same.",
+    "C09": " Membership model extended by rejoin (an instance that left comes back under the same node name as a restarted process) "
+           "and by a thread-level part (TestVerifC09Announce: a peer's newer claim handled by the real NotifyMsg concurrently with the "
+           "local re-registration, every schedule with <=2 preemptions). Routing table extended by a peer that has streams in both "
+           "directions for sibling pairs only (other target shard / other source shard).",
+    "C11": " Fault blackhole(i): the connection goes silent (no data, no EOF, no reset) and 7 minutes of virtual time pass - the session "
+           "must be gone (health check records the failed pings, the keep-alive gives the connection up). The family over the harness "
+           "connProvider uses a 5-minute keep-alive so that the health check's verdict precedes the close.",
+    "C12": " Fully populated messages are built with one and with two elements in every repeated message field.",
+    "C13": " Fully populated messages with one and with two elements in every repeated message field.",
+    "C14": " Paths through a serialized batch also with the batch JSON-encoded.",
+    "C15": " Third policy shape: the connection also has a namespace translation configured (the translation step sits in front of the "
+           "ACL in the interceptor chain and has a bypass header).",
+    "C16": " Every must-refuse case is preceded, on the same long-lived interceptors, by a request of the same type that names no "
+           "namespace (the verdict may not depend on earlier traffic); batches from an older server - an event with invalid UTF-8 in its "
+           "failure message before the event that names the forbidden namespace - must be refused as well.",
+    "C17": " Two more invalid sequences contain correctly encoded U+FFFD characters next to the offending byte (they are valid and stay).",
+    "C18": " The element of the outermost repeated field on the path also occurs twice, both copies invalid.",
+    "C19": " Wiring part: listeners (TCP, mux) whose TLS block with verification on cannot be built (CA file missing, bundle without a "
+           "CA certificate, unloadable key pair) are refused or admit nobody - not a plaintext peer, not one without a certificate; "
+           "the intra-proxy client with an unbuildable TLS block yields no client connection on any of three attempts.",
+    "C20": " Histories added in routing mode (with and without an intra-proxy manager): an ordinary stream is up and a peer instance "
+           "opens a forwarded (intra-proxy) stream for its shard with every kind of id on its side; a stream-open that reuses the ids of "
+           "a stream that is still up. The locks of shard_manager.go and proxy_streams.go park as well. Found and repaired: an "
+           "intra-proxy stream on an instance without intra-proxy manager crashed the process (7a046f5).",
+}
 for _k, _v in EXTRA.items():
+    CLAIMED[_k]["text"] += _v
+for _k, _v in EXTRA5.items():
     CLAIMED[_k]["text"] += _v
 
 
